@@ -82,6 +82,18 @@ def gen_cases(tier, rng):
         cases.append({"cls": "uncoupled" if uncoupled else "coupled", "N": N, "E": E, "J": J.tolist(), "dip": dips, "widths": widths, "pol": pol, "polclass": pk,
                       "shape": ("Gaussian" if (i % 8 == 0) else str(rng.choice(["Gaussian", "Lorentzian"]))), "relaxing": bool(rng.random() < 0.5), "t2_index": int(rng.integers(0, 3)),
                       "seed": int(rng.integers(1 << 30)), "cost": 4 * N})
+    # uncoupled molecules with EXACTLY equal transition energies but different line widths (Gaussian shapes): peaks coincide, shapes do not
+    for k in range(4 if tier == "quick" else 24):
+        N = 2 + k % 2
+        e0 = r3(rng.uniform(11800, 12400))
+        E = [e0, e0] if N == 2 else [[e0, r3(e0 - 150.0), e0], [e0, e0, e0], [r3(e0 + 90.0), e0, e0]][(k // 2) % 3]
+        dips = []
+        for _ in range(N):
+            v = rng.normal(size=3)
+            dips.append([r3(x) for x in v / numpy.linalg.norm(v) * rng.uniform(0.5, 2.0)])
+        cases.append({"cls": "uncoupled", "N": N, "E": E, "J": numpy.zeros((N, N)).tolist(), "dip": dips, "widths": [r3(60.0 + 70.0 * j + rng.uniform(0, 30)) for j in range(N)],
+                      "pol": [X, X, X, X] if k % 2 == 0 else [X, X, Y, Y], "polclass": "XXXX" if k % 2 == 0 else "XXYY", "shape": "Gaussian", "relaxing": bool(k % 4 >= 2),
+                      "t2_index": int(rng.integers(0, 3)), "seed": int(rng.integers(1 << 30)), "cost": 4 * N})
     # the listed known finding (Lorentzian shapes, different dephasing rates, uncoupled molecules) is exercised in every run
     cases.append({"cls": "uncoupled", "N": 2, "E": [11800.0, 12150.0], "J": [[0.0, 0.0], [0.0, 0.0]], "dip": [[1.0, 0.5, 0.2], [0.3, 1.2, -0.4]],
                   "widths": [150.0, 120.0], "pol": [X, X, X, X], "polclass": "XXXX", "shape": "Lorentzian", "relaxing": False, "t2_index": 0,
